@@ -76,15 +76,18 @@ def seq_arity(lst):
     return "unknown"
 
 
-def normal_run(x):
-    """Normal form of a run whose items are the elements of ONE source run S: the run
+def normal_run(x, fresh_own=None):
+    """(fresh_own: for a reserved temporary made in a loop -- one name per round -- the round variable
+    it was bound under; then a run that reads those temporaries by position is normalised like a run
+    over a source run.)
+    Normal form of a run whose items are the elements of ONE source run S: the run
     variable is S's own, and the direction says how S is traversed.  A loop written
     `for i in range(n - 1, -1, -1): use(S[i])` produces a forward run over a counter whose
     items are S[n-1-j]; that is the same sequence as `for e in reversed(S)`: S's own
     variable, reversed.  (Alpha- and mirror-normalisation; nothing else is changed.)"""
     if isinstance(x, Fold):
         probe = Seg(x.tag, x.length, x.jvar, [x.step], x.rev)
-        n_ = normal_run(probe)
+        n_ = normal_run(probe, fresh_own)
         if n_ is probe:
             return x
         return Fold(x.tag, x.length, n_.jvar, x.init, x.acc, n_.items[0], n_.rev)
@@ -115,13 +118,17 @@ def normal_run(x):
                     for y in (v_ if isinstance(v_, list) else [v_]):
                         if isinstance(y, Opaque):
                             scan(y)
+                        elif fresh_own is not None and isinstance(y, Hole) and isinstance(y.tag, tuple) and len(y.tag) == 4 and y.tag[0] == "fresh" and z3.is_expr(y.tag[3]):
+                            found.add((("fresh", y.tag[1], y.tag[2]), y.tag[3]))
     mention = [(nm, ix) for nm, ix in found if any(str(d) == str(x.jvar) for d in _vars_of(ix))]
     names = {nm for nm, _ in mention}
     idxs = {str(z3.simplify(ix)) for _, ix in mention}
     if len(names) != 1 or len(idxs) != 1:
         return x
     nm, ix = mention[0]
-    own = z3.Int(f"j_{nm}")
+    own = z3.Int(f"j_{nm}") if isinstance(nm, str) else fresh_own(nm)
+    if own is None:
+        return x
     n = zint(x.length)
     if z3.simplify(ix - x.jvar).eq(z3.IntVal(0)):
         if str(own) == str(x.jvar):
@@ -147,6 +154,7 @@ class Eval:
     def __init__(self, env=None):
         self.tr = []          # event trace (current list being appended to)
         self.env = dict(env or {})  # reserved temporaries: name key -> value term
+        self.fresh_binds = {}
         self.env_writes = []        # keys in order of binding
         self.refs = []        # free plain-name references (hygiene)
         self.binders = []     # introduced binders: (key, identifier, kind)
@@ -245,7 +253,7 @@ class Eval:
         step_last(step_..(step_first(init))).  Evaluating it runs, for every round from the
         OUTERMOST inwards, what the step evaluates before its accumulator, then init, then,
         from the innermost round outwards, what the step evaluates after it."""
-        f = normal_run(f)
+        f = normal_run(f, self.fresh_binds.get)
         marker = ("acc", tagstr(f.acc.tag))
         saved = self.abstract
 
@@ -297,6 +305,8 @@ class Eval:
             self.emit("bad-walrus-target", type(t).__name__)
             return v
         key = nk(t.id)
+        if isinstance(t.id, Hole) and isinstance(t.id.tag, tuple) and len(t.id.tag) == 4 and t.id.tag[0] == "fresh" and z3.is_expr(t.id.tag[3]) and z3.is_const(t.id.tag[3]):
+            self.fresh_binds[("fresh", t.id.tag[1], t.id.tag[2])] = t.id.tag[3]   # a temporary per round of the loop it is made in
         if is_reserved(t.id):
             self.env[key] = v
             self.env_writes.append(key)
